@@ -89,7 +89,7 @@ def run(tier, seed, ctx):
     open(path, 'w').write('\nreset\n'.join(c[1] for c in cases) + '\n')
     violations, n_rej, n_acc = [], 0, 0
     for prof in ('debug', 'release'):
-        p = subprocess.run(['%s/%s/h_world' % (target, prof), path, 'quiet'], stdout=subprocess.PIPE, stderr=subprocess.PIPE, text=True, timeout=1200)
+        p = subprocess.run(['%s/%s/h_world' % (target, prof), path, 'quiet'], stdout=subprocess.PIPE, stderr=subprocess.PIPE, text=True, errors='replace', timeout=1200)
         verdicts = [l for l in p.stdout.split('\n') if l.startswith('R ')]
         if p.returncode != 0 or len(verdicts) != len(cases):
             violations.append((dict(kind='c05-pairs', broken='harness run', profile=prof, rc=p.returncode, got=len(verdicts), expected=len(cases),
@@ -107,7 +107,7 @@ def run(tier, seed, ctx):
                 break
     if not violations:
         for prof in ('debug', 'release'):
-            p = subprocess.run(['%s/%s/h_world' % (target, prof), rpath, 'quiet'], stdout=subprocess.PIPE, stderr=subprocess.PIPE, text=True, timeout=600)
+            p = subprocess.run(['%s/%s/h_world' % (target, prof), rpath, 'quiet'], stdout=subprocess.PIPE, stderr=subprocess.PIPE, text=True, errors='replace', timeout=600)
             verdicts = [l for l in p.stdout.split('\n') if l.startswith('R ')]
             if p.returncode != 0 or len(verdicts) != len(recv_cases):
                 violations.append((dict(kind='c05-receivers', broken='harness run', profile=prof, rc=p.returncode, got=len(verdicts), expected=len(recv_cases), stderr=p.stderr[-500:]), False))
